@@ -151,38 +151,73 @@ def run(ctx):
         if isinstance(n, ast.Assign) and isinstance(n.value, ast.Attribute) and n.value.attr == "choices" and is_self_attr(n.targets[0]):
             values_attr = n.targets[0].attr
     ctx.require(values_attr, "SelectChoiceValidator does not keep the question's choices")
-    appends = [c for c in q.calls(val) if isinstance(c.func, ast.Attribute) and c.func.attr == "append" and c.args and isinstance(c.args[0], ast.Name)]
     rets = q.returns(val)
     result_lists = set()
     for ret in rets:
         for x in walk_no_nested(ret.value) if ret.value is not None else []:
             if isinstance(x, ast.Name):
                 result_lists.add(x.id)
-    appends = [c for c in appends if isinstance(c.func.value, ast.Name) and c.func.value.id in result_lists]
-    ctx.require(appends, "validate() does not build its result by appending")
-    for c in appends:
-        var = c.args[0].id
-        an = cfg.node_of(c)
-        defs = cfg.writes(lambda t: t == var)
-        for d in defs:
-            others = [x.id for x in defs if x is not d]
-            if an.id not in cfg.reach([d.id], blocked=others):
-                continue  # overwritten before the append
-            v = d.ast.value if isinstance(d.ast, ast.Assign) else None
-            desc = "%s: %s reaches %s" % (val.short, norm(d.ast), norm(c))
-            if isinstance(v, ast.Subscript) and is_self_attr(v.value, values_attr):
-                r.ok(desc)
-            elif isinstance(v, ast.Constant) and v.value is False:
-                g = guarded_by(cfg, an, lambda e: isinstance(e, ast.Compare) and isinstance(e.left, ast.Name) and e.left.id == var and isinstance(e.ops[0], ast.Is)
-                               and isinstance(e.comparators[0], ast.Constant) and e.comparators[0].value is False, polarity=False)
-                if g is not None and cfg.inevitably_raises(cfg.true_of(g).id):
-                    r.ok(desc + " [sentinel, rejected before the append]")
+    vcls = val.cls
+
+    def _self_helper(e):
+        """FuncInfo of the validator's own method called by ``self.h(...)``, else None"""
+        if isinstance(e, ast.Call) and isinstance(e.func, ast.Attribute) and isinstance(e.func.value, ast.Name) and e.func.value.id == "self" and e.func.attr in vcls.methods \
+                and vcls.methods[e.func.attr] is not val:
+            return vcls.methods[e.func.attr]
+        return None
+
+    def judge_value(fn, v, at, use_desc, anchor, depth=0):
+        """is the value of expression ``v``, used at CFG node ``at`` of ``fn``, an element of the choices?"""
+        fcfg = ctx.cfg(fn)
+        if isinstance(v, ast.Subscript) and is_self_attr(v.value, values_attr) and not isinstance(v.slice, ast.Slice):
+            r.ok("%s: %s reaches %s" % (fn.short, norm(v), use_desc))
+            return
+        h = _self_helper(v)
+        if h is not None and depth < 3:
+            hrets = [x for x in q.returns(h) if x.value is not None]
+            if not hrets:
+                r.fail(fn, anchor, norm(v), "%s yields nothing: the answer is None" % h.short)
+            for hr in hrets:
+                judge_value(h, hr.value, ctx.cfg(h).node_of(hr), "the return of %s" % h.short, hr, depth + 1)
+            return
+        if isinstance(v, ast.Name):
+            var = v.id
+            defs = fcfg.writes(lambda t: t == var)
+            seen_def = False
+            for d in defs:
+                others = [x.id for x in defs if x is not d]
+                if at.id not in fcfg.reach([d.id], blocked=others):
+                    continue  # overwritten before the use
+                seen_def = True
+                dv = d.ast.value if isinstance(d.ast, ast.Assign) else None
+                desc = "%s: %s reaches %s" % (fn.short, norm(d.ast), use_desc)
+                if isinstance(dv, ast.Constant) and dv.value is False:
+                    g = guarded_by(fcfg, at, lambda e: isinstance(e, ast.Compare) and isinstance(e.left, ast.Name) and e.left.id == var and isinstance(e.ops[0], ast.Is)
+                                   and isinstance(e.comparators[0], ast.Constant) and e.comparators[0].value is False, polarity=False)
+                    if g is not None and fcfg.inevitably_raises(fcfg.true_of(g).id):
+                        r.ok(desc + " [sentinel, rejected before the use]")
+                    else:
+                        r.fail(fn, anchor, norm(anchor) + " <- False", "the 'not found' sentinel can reach the returned answer")
+                elif dv is not None and (isinstance(dv, ast.Subscript) or _self_helper(dv) is not None):
+                    judge_value(fn, dv, d, use_desc, d.ast, depth + 1)
                 else:
-                    r.fail(val, c, norm(c) + " <- False", "the 'not found' sentinel can reach the returned answer")
-            else:
-                r.fail(val, d.ast, norm(d.ast), "the answer can be %s, which is not an element of the choices (e.g. the text or index typed)" % norm(v) if v is not None else "unknown")
+                    r.fail(fn, d.ast, norm(d.ast), "the answer can be %s, which is not an element of the choices (e.g. the text or index typed)" % norm(dv) if dv is not None else "unknown")
+            if not seen_def:
+                r.fail(fn, anchor, norm(anchor), "no definition of %s reaches %s" % (var, use_desc))
+            return
+        r.fail(fn, anchor, norm(anchor), "the answer can be %s, which is not an element of the choices (e.g. the text or index typed)" % norm(v))
+
+    appends = [c for c in q.calls(val) if isinstance(c.func, ast.Attribute) and c.func.attr == "append" and c.args and isinstance(c.func.value, ast.Name) and c.func.value.id in result_lists]
+    comps = [n for n in walk_no_nested(val.node) if isinstance(n, ast.Assign) and isinstance(n.value, ast.ListComp) and any(isinstance(t, ast.Name) and t.id in result_lists for t in n.targets)]
+    ctx.require(appends or comps, "validate() does not build its result by appending (or by a list comprehension)")
+    for c in appends:
+        judge_value(val, c.args[0], cfg.node_of(c), norm(c), c)
+    for n in comps:
+        judge_value(val, n.value.elt, cfg.node_of(n), "the elements of " + norm(n.targets[0]), n)
     # per-entry freshness: the value appended for an entry was defined while handling *that* entry
     for c in appends:
+        if not isinstance(c.args[0], ast.Name):
+            continue
         var = c.args[0].id
         an = cfg.node_of(c)
         loops_ = cfg.enclosing_loops(c)
@@ -297,31 +332,44 @@ def run(ctx):
     # ---------------------------------------------------------------- R6
     r = ctx.rule("C18-R6", "TAINT", "typing a choice's value selects it, whatever characters it contains: the blank-collapsed form of the answer exists for the "
                  "syntax check and split of the multi-select form only; on the single-select arm the candidate is the answer as typed", reference=1)
-    prm = [a for a in val.params if a != "self"][0]
-    vcfg = ctx.cfg(val)
-    collapsed = {t.id for n in walk_no_nested(val.node) if isinstance(n, ast.Assign) and isinstance(n.value, ast.Call) and isinstance(n.value.func, ast.Attribute) and n.value.func.attr == "replace"
-                 and n.value.args and isinstance(n.value.args[0], ast.Constant) and n.value.args[0].value == " " for t in n.targets if isinstance(t, ast.Name)}
-    multi_f = [e for e in vcfg.nodes if e.kind == "F" and isinstance(e.ast, ast.Call) and isinstance(e.ast.func, ast.Attribute) and e.ast.func.attr == "supports_multiple_choices"]
-    if not collapsed:
-        r.vacuous_ok = True
-        r.note("the validator no longer collapses blanks")
-    else:
+    def _is_multi(e):
+        return isinstance(e, ast.Call) and isinstance(e.func, ast.Attribute) and e.func.attr == "supports_multiple_choices"
+
+    n6 = 0
+    for vm in sorted(val.cls.methods.values(), key=lambda f: f.name):
+        collapsed = {t.id for n in walk_no_nested(vm.node) if isinstance(n, ast.Assign) and isinstance(n.value, ast.Call) and isinstance(n.value.func, ast.Attribute) and n.value.func.attr == "replace"
+                     and n.value.args and isinstance(n.value.args[0], ast.Constant) and n.value.args[0].value == " " for t in n.targets if isinstance(t, ast.Name)}
+        if not collapsed:
+            continue
+        n6 += 1
+        vcfg = ctx.cfg(vm)
+        single = [e for e in vcfg.nodes if (e.kind == "F" and _is_multi(e.ast)) or (e.kind == "T" and isinstance(e.ast, ast.UnaryOp) and isinstance(e.ast.op, ast.Not) and _is_multi(e.ast.operand))]
         bad = None
         arms = 0
-        for e in multi_f:
+        for e in single:
             for n in vcfg.nodes:
-                if n.kind == "stmt" and isinstance(n.ast, ast.Assign) and vcfg.dominates(e.id, n.id) and any(isinstance(t, ast.Name) and t.id in collapsed for t in n.ast.targets):
+                if not vcfg.dominates(e.id, n.id):
+                    continue
+                if n.kind == "stmt" and isinstance(n.ast, ast.Assign) and any(isinstance(t, ast.Name) and t.id in collapsed for t in n.ast.targets):
+                    arms += 1
+                    if q.names_in(n.ast.value) & collapsed:
+                        bad = n
+                elif n.kind == "return" and n.ast.value is not None and vm is not val:
+                    # a helper that yields the candidate list: what it yields on the single-select arm
                     arms += 1
                     if q.names_in(n.ast.value) & collapsed:
                         bad = n
         if bad is not None:
-            r.fail(val, bad.ast, norm(bad.ast), "on the single-select arm the candidate list is built from the blank-collapsed answer (%s): a choice that contains a blank, such as 'Iron Man', "
+            r.fail(vm, bad.ast, norm(bad.ast), "on the single-select arm the candidate list is built from the blank-collapsed answer (%s): a choice that contains a blank, such as 'Iron Man', "
                    "can be selected by its index but is rejected when typed by name" % norm(bad.ast))
         elif arms:
-            r.ok("%s: single-select candidate is the answer as typed" % val.short)
+            r.ok("%s: single-select candidate is the answer as typed" % vm.short)
         else:
-            r.note("no single-select arm that rebuilds the candidate list found")
+            r.note("%s: no single-select arm that rebuilds the candidate list found" % vm.short)
             r.vacuous_ok = True
+    if n6 == 0:
+        r.vacuous_ok = True
+        r.note("the validator no longer collapses blanks")
 
     # ---------------------------------------------------------------- R7
     r = ctx.rule("C18-R7", "TABLE", "a confirmation is true exactly for inputs that match its pattern from their first character: the normaliser "
@@ -374,6 +422,7 @@ def run(ctx):
     # ---------------------------------------------------------------- R10
     r = ctx.rule("C18-R10", "ORDER", "an ambiguous entry (a value that occurs more than once among the choices) is an invalid entry, whether or not a look-up would find it: the ambiguity "
                  "test lies on every path from the matching loop to the acceptance of the value", reference=1)
+    vcfg = ctx.cfg(val)
     amb = [c for c in vcfg.conds() if isinstance(c.ast, ast.Compare) and isinstance(c.ast.left, ast.Call) and isinstance(c.ast.left.func, ast.Name) and c.ast.left.func.id == "len"
            and isinstance(c.ast.ops[0], (ast.Gt, ast.GtE)) and vcfg.true_of(c) is not None and vcfg.inevitably_raises(vcfg.true_of(c).id)]
     accepts = [n for c in q.calls(val) if isinstance(c.func, ast.Attribute) and c.func.attr == "append" and c.args and isinstance(c.args[0], ast.Name) and c.args[0].id.startswith("result") and not c.args[0].id.endswith("s")
@@ -390,6 +439,25 @@ def run(ctx):
                 amb_calls += vcfg.nodes_of(c)
     if not amb and not amb_calls:
         r.fail(val, val.node, "no ambiguity test", "the validator never rejects an ambiguous value")
+    elif not accepts and comps:
+        # the value is accepted by being returned from the per-entry helper the comprehension calls: the test must lie on every path to its value returns
+        n10 = 0
+        for cn in comps:
+            h = _self_helper(cn.value.elt)
+            if h is None:
+                continue
+            hc = ctx.cfg(h)
+            hamb = {k.id for k in hc.conds() if isinstance(k.ast, ast.Compare) and isinstance(k.ast.left, ast.Call) and isinstance(k.ast.left.func, ast.Name) and k.ast.left.func.id == "len"
+                    and isinstance(k.ast.ops[0], (ast.Gt, ast.GtE)) and hc.true_of(k) is not None and hc.inevitably_raises(hc.true_of(k).id)}
+            hrets = [n.id for n in hc.nodes if n.kind == "return" and n.ast.value is not None]
+            n10 += 1
+            if hamb and hrets and hc.all_paths_hit(hc.entry.id, hamb, hrets):
+                r.ok("%s: the ambiguity test is on every path to the value it returns" % h.short)
+            else:
+                r.fail(h, h.node, "ambiguity test not on every path", "%s returns a value on a path that skips the ambiguity test: a duplicated choice is accepted silently - no error, no attempt consumed" % h.short)
+        if n10 == 0:
+            r.note("acceptance site not recognised")
+            r.vacuous_ok = True
     elif not accepts:
         r.note("acceptance site not recognised")
         r.vacuous_ok = True
